@@ -492,7 +492,12 @@ impl BuildJob<'_> {
             None,
         );
         let state = ptx.commit().map_err(RedoError::opaque_error)?;
+        let fid = self.lock.file_id();
         let job = server.start(self.t.into_string(), || {
+            // We hold this target's lock while redo-unlocked works on its dependencies:
+            // a dependency that asks for the target again closes a cycle, and must find
+            // the target among the locks held up the chain instead of waiting for it.
+            cycles::add(fid.to_string());
             env::set_var(ENV_DEPTH, {
                 let mut depth = state.env().depth().to_string();
                 depth.push_str("  ");
